@@ -281,7 +281,7 @@ var allShapes, reducedShapes = func() ([]shape, []shape) {
 	return all, red
 }()
 
-var payloads = []string{"v1", "v2", "", "a\"b\\c", "line1\nline2", "<&>", "  ", "\U0001F600", "+", "- 1", "@ []", "^ {\"Merge\":true}", "[", "]", " ", "\t\u0000\u001f", "é", "0", "null", "\ufffd", "\u202eabc", "e\u0301", "1e+21", "-0"}
+var payloads = []string{"v1", "v2", "", "a\"b\\c", "line1\nline2", "<&>", "  ", "\U0001F600", "+", "- 1", "@ []", "^ {\"Merge\":true}", "[", "]", " ", "\t\u0000\u001f", "é", "0", "null", "\ufffd", "\u202eabc", "e\u0301", "1e+21", "-0", "a\u007fb", "\u0085", "x\u009fy", "-1", "x\ufeffy"}
 
 func (s shape) build(r *gen.RNG, plain bool) jd.DiffElement {
 	val := func() jd.JsonNode {
